@@ -92,6 +92,12 @@ inductive Ev where
   | lost (k : Nat) (fromA : Bool) (s : Nat) (nested : List Ev)
   /-- the same for a wireless send: an exception unwound through `AirSpace.transmit`. -/
   | wlost (c : Nat) (i : Nat) (s : Nat) (nested : List Ev)
+  /-- inside the delivery of a wireless send by interface `i` of channel `c`: `AirSpace.transmit`'s loop has reached interface `j`
+  (`for w in wireless_interfaces_by_frequency[hz]: if w != sender and w.enabled: w.receive_frame(frame)`).  Whether `j` hears
+  the frame is decided **at this moment** (the loop walks the live list and tests `enabled` at each turn, so an interface
+  disabled earlier in the same delivery does not hear it and one enabled earlier in the same delivery does); what `j`'s node
+  then does are the events that follow in the same list. -/
+  | wrecv (c : Nat) (i : Nat) (j : Nat)
 
 inductive Verdict where
   | nolink     -- no such link / interface (malformed input; the implementation cannot express it)
@@ -101,6 +107,8 @@ inductive Verdict where
   | rejected   -- handed to the far interface, which answered False; reservation released
   | carried    -- handed to the far interface, which took it
   | lost       -- handed to the far interface; an exception unwound through the delivery; the reservation stays
+  | heard      -- (wireless, per receiver) the frame in the air was handed to this interface: it is enabled and not the sender
+  | deaf       -- (wireless, per receiver) the interface is disabled (or is the sender): it does not get the frame
 deriving Repr, DecidableEq
 
 /-- The frame was handed to a receiving interface. -/
@@ -120,10 +128,11 @@ structure Rec where
   k : Nat
   verdict : Verdict
   /-- sender / receiver `enabled` at the moment the verdict was reached (for `crossed`: the moment of the hand-over);
-  for a wireless send `enR` says that every receiver was enabled -/
+  a wireless send has one record of its own (`enR` = true once admitted: the airspace took it) and one `heard` / `deaf` record per
+  interface the loop of `AirSpace.transmit` reached (`enR` = that interface hears it) -/
   enS : Bool
   enR : Bool
-  /-- wireless: the interfaces that received the frame -/
+  /-- `heard` / `deaf` records: the interface the loop reached -/
   rcv : List Nat
   /-- size admitted (0 when the link was never asked) -/
   size : Nat
@@ -141,12 +150,8 @@ def bwOf (n : Net) (k : Nat) : Nat := match n.links[k]? with | some l => l.bw | 
 def cloadOf (n : Net) (c : Nat) : Nat := match n.chans[c]? with | some ch => ch.load | none => 0
 def capOf (n : Net) (c : Nat) : Nat := match n.chans[c]? with | some ch => ch.cap | none => 0
 
-/-- Indices `j ≠ i` (counted from `base`) whose flag is set: `for w in interfaces_by_frequency: if w != sender and w.enabled`. -/
-def receiversFrom (i : Nat) : Nat → List Bool → List Nat
-  | _, [] => []
-  | base, b :: bs => if b && base != i then base :: receiversFrom i (base + 1) bs else receiversFrom i (base + 1) bs
-
-def receivers (en : List Bool) (i : Nat) : List Nat := receiversFrom i 0 en
+/-- The verdict of one turn of `AirSpace.transmit`'s loop. -/
+def hearVerdict (ok : Bool) : Verdict := if ok then .heard else .deaf
 
 mutual
 /-- One event, in the state `n`; returns the new state and the records of every `send_frame` that returned meanwhile. -/
@@ -197,9 +202,8 @@ def runEv (n : Net) : Ev → Net × List Rec
           else
             -- AirSpace.transmit: add the load (keyed by hz), then hand the frame to every enabled other interface of the hz
             let n1 : Net := { n with chans := n.chans.set c { ch with load := ch.load + s } }
-            let rcv := receivers ch.en i
             let r := runEvs n1 nested
-            (r.1, r.2 ++ [{ wireless := true, k := c, verdict := .carried, enS, enR := true, rcv, size := s,
+            (r.1, r.2 ++ [{ wireless := true, k := c, verdict := .carried, enS, enR := true, rcv := [], size := s,
                             loadBefore := ch.load, load := cloadOf r.1 c, bw := capOf r.1 c, capS := capI }])
   | .setEn k endA v =>
     match n.links[k]? with
@@ -254,10 +258,21 @@ def runEv (n : Net) : Ev → Net × List Rec
           else if !admits ch.load s capI then stay .full
           else
             let n1 : Net := { n with chans := n.chans.set c { ch with load := ch.load + s } }
-            let rcv := receivers ch.en i
             let r := runEvs n1 nested
-            (r.1, r.2 ++ [{ wireless := true, k := c, verdict := .lost, enS, enR := true, rcv, size := s,
+            (r.1, r.2 ++ [{ wireless := true, k := c, verdict := .lost, enS, enR := true, rcv := [], size := s,
                             loadBefore := ch.load, load := cloadOf r.1 c, bw := capOf r.1 c, capS := capI }])
+
+  | .wrecv c i j =>
+    match n.chans[c]? with
+    | none => (n, [{ wireless := true, k := c, verdict := .nolink, enS := false, enR := false, rcv := [j], size := 0,
+                     loadBefore := 0, load := 0, bw := 0, capS := 0 }])
+    | some ch =>
+      let enJ := match ch.en[j]? with | some b => b | none => false
+      let enI := match ch.en[i]? with | some b => b | none => false
+      -- `if wireless_interface != sender_network_interface and wireless_interface.enabled`
+      let ok := enJ && j != i
+      (n, [{ wireless := true, k := c, verdict := hearVerdict ok, enS := enI, enR := ok, rcv := [j], size := 0,
+             loadBefore := ch.load, load := ch.load, bw := ch.cap, capS := 0 }])
 
 def runEvs (n : Net) : List Ev → Net × List Rec
   | [] => (n, [])
